@@ -417,11 +417,17 @@ func isKnown(v Violation) *Known {
 
 func sameViolation(vs []Violation, class, sig string) *Violation {
 	for i := range vs {
-		if vs[i].Class == class && (vs[i].Sig == sig || sig == "") {
+		if classEq(vs[i].Class, class) && (vs[i].Sig == sig || sig == "") {
 			return &vs[i]
 		}
 	}
 	return nil
+}
+
+// classEq: porcupine's attribution of a mismatch may change while a trace is being
+// shrunk; all mismatch classes denote the same violation of C12.
+func classEq(a, b string) bool {
+	return a == b || strings.HasPrefix(a, "mismatch") && strings.HasPrefix(b, "mismatch")
 }
 
 // refine re-executes a run under its own recorded schedule with per-step hashing so
